@@ -163,6 +163,8 @@ impl<T: Actor> ActorRef<T> {
                 details: "Mailbox channel closed".to_string(),
             })
         } else {
+            #[cfg(feature = "verif-hooks")]
+            crate::verif_hooks::accepted(self.identity());
             Ok(())
         };
 
@@ -319,6 +321,8 @@ impl<T: Actor> ActorRef<T> {
                 details: "Mailbox channel closed".to_string(),
             });
         }
+        #[cfg(feature = "verif-hooks")]
+        crate::verif_hooks::accepted(self.identity());
 
         match self.wait_reply(reply_rx).await.ok_or(()) {
             Ok(reply_any) => {
@@ -464,6 +468,8 @@ impl<T: Actor> ActorRef<T> {
             .await
         {
             Ok(_) => {
+                #[cfg(feature = "verif-hooks")]
+                crate::verif_hooks::accepted(self.identity());
                 #[cfg(feature = "tracing")]
                 info!(actor_id = %self.identity(), "Actor stop signal sent successfully");
                 Ok(())
@@ -555,6 +561,10 @@ impl<T: Actor> ActorRef<T> {
                 details: "Mailbox channel closed".to_string(),
             }
         });
+        #[cfg(feature = "verif-hooks")]
+        if result.is_ok() {
+            crate::verif_hooks::accepted(self.identity());
+        }
 
         #[cfg(feature = "tracing")]
         match &result {
@@ -702,6 +712,8 @@ impl<T: Actor> ActorRef<T> {
                 details: "Mailbox channel closed".to_string(),
             }
         })?;
+        #[cfg(feature = "verif-hooks")]
+        crate::verif_hooks::accepted(self.identity());
 
         match futures::executor::block_on(self.wait_reply(reply_rx)).ok_or(()) {
             Ok(reply_any) => {
